@@ -110,17 +110,43 @@ func modeConcRemove(r *vlib.Run) {
 				}
 			}()
 		}
-		// Unsubscribe a seeded subset while dispatch is running.
+		// Unsubscribe a seeded subset while dispatch is running; at the same
+		// moment late joiners register on the very paths that are being left (a
+		// registration racing the pruning of the branch it lands on).
 		order := rng.Perm(nc)
 		nrem := 1 + rng.Intn(nc)
+		type joiner struct {
+			c *tcli
+			q [][]string
+		}
+		var joiners []joiner
+		var jmu sync.Mutex
 		for _, i := range order[:nrem] {
 			for atomic.LoadInt64(&dispatched) < int64(20+rng.Intn(200)) {
 				runtime.Gosched()
+			}
+			var jw sync.WaitGroup
+			if rng.Intn(2) == 0 {
+				j := joiner{c: &tcli{id: 2000 + i}, q: regs[i]}
+				jw.Add(1)
+				go func() {
+					defer jw.Done()
+					for _, q := range j.q {
+						m.AddQuery(cp(q), j.c)
+					}
+					jmu.Lock()
+					joiners = append(joiners, j)
+					jmu.Unlock()
+				}()
+				if rng.Intn(2) == 0 {
+					runtime.Gosched()
+				}
 			}
 			for _, rm := range removes[i] {
 				rm()
 			}
 			atomic.StoreInt64(&clients[i].removedAt, ctick())
+			jw.Wait()
 			time.Sleep(time.Duration(rng.Intn(150)) * time.Microsecond)
 		}
 		// Let dispatch continue well past the removals, then stop.
@@ -139,6 +165,68 @@ func modeConcRemove(r *vlib.Run) {
 		m.Update("probe", probe)
 		close(stop)
 		wg.Wait()
+		// Quiescent: every late joiner is registered and must be offered a path
+		// one of its queries is compatible with.
+		for _, j := range joiners {
+			before := atomic.LoadInt64(&j.c.calls)
+			pr := cp(j.q[0])
+			for i := range pr {
+				if pr[i] == "*" {
+					pr[i] = "b"
+				}
+			}
+			m.Update("probe-joiner", pr)
+			r.Count("concremove_late_joiners_probed", 1)
+			if atomic.LoadInt64(&j.c.calls) == before {
+				r.Violation("concremove", trial, "offer-missed:registered-while-peer-unsubscribed",
+					fmt.Sprintf("a client that registered %s while another client with the same paths was unsubscribing is not offered %s afterwards", pss(j.q), ps(pr)), nil)
+			}
+		}
+		// Tight rounds of the narrowest case: the LAST client of a childless branch
+		// unsubscribes at the very moment another client registers the same path.
+		// Whatever the order, the newcomer is registered afterwards and must be
+		// offered the path; the leaver must not be.
+		tightPath := randPath(rng, []string{"a", "b"}, 0, 3)
+		if len(tightPath) == 0 {
+			tightPath = []string{"a"}
+		}
+		for round := 0; round < 200; round++ {
+			a, b := &tcli{id: 3000}, &tcli{id: 3001}
+			rmA := m.AddQuery(cp(tightPath), a)
+			var gate int32
+			var tw sync.WaitGroup
+			var rmB func()
+			tw.Add(2)
+			go func() {
+				defer tw.Done()
+				for atomic.LoadInt32(&gate) == 0 {
+				}
+				rmA()
+			}()
+			go func() {
+				defer tw.Done()
+				for atomic.LoadInt32(&gate) == 0 {
+				}
+				rmB = m.AddQuery(cp(tightPath), b)
+			}()
+			for i := 0; i < round%40; i++ {
+				runtime.Gosched()
+			}
+			atomic.StoreInt32(&gate, 1)
+			tw.Wait()
+			m.Update("tight", tightPath)
+			r.Count("concremove_tight_rounds", 1)
+			if atomic.LoadInt64(&b.calls) == 0 {
+				r.Violation("concremove", trial, "offer-missed:registered-while-peer-unsubscribed",
+					fmt.Sprintf("a client that registered %s at the moment the last other client of that path unsubscribed is not offered %s afterwards", ps(tightPath), ps(tightPath)), nil)
+				rmB()
+				break
+			}
+			if atomic.LoadInt64(&a.calls) != 0 {
+				r.Violation("concremove", trial, "offer-after-remove:concurrent", fmt.Sprintf("the client that unsubscribed from %s was offered it afterwards", ps(tightPath)), nil)
+			}
+			rmB()
+		}
 		r.Eval(1)
 		r.Count("concremove_dispatches", atomic.LoadInt64(&dispatched))
 		r.Count("concremove_removals", int64(nrem))
